@@ -1,7 +1,206 @@
-(* C02 placeholder: theorems land with Proofs/ProtoProofs.v *)
-From Coq Require Import ZArith List.
-From V Require Import Result Proto.
+(* C02 -- writer and reader each agree with the protobuf schema, field by field.
+   Writer: save emits the 8-byte header (GTIRB, two zero bytes, the protobuf version) and a message in which every field
+   equals the corresponding attribute of the content (address-presence flag, payload one-ofs, enum numbers, attribute
+   flags, 16-byte UUIDs, the vertex list naming every CFG node).  Reader: whatever schema-valid message it accepts,
+   whoever wrote it, the content it returns has every attribute equal to the corresponding message field
+   (to_proto c = msg_norm p: p up to what the API stores as sets -- repeated flags/attributes/edges -- and the unread
+   vertex list and stale address).  Each direction on its own, not their composition.
+   The finite tables (enum constants, protobuf version, message fields) are checked by computation against gen/Schema.v
+   (generated from /repo/proto/*.proto) and gen/PyFacts.v (introspected from the Python package) on every run.
+   Model: Model/Proto.v.  Proofs: Proofs/ProtoProps.v (writer, tables), Proofs/ProtoReader.v (reader).
+   Trusted: the protobuf wire codec; that the p-records of Model/Proto.v are read/written by the Python code as modelled
+   is observed by the differential harness. *)
+From Coq Require Import String ZArith List Bool.
+From V Require Import Result Bytes Schema PyFacts Proto ProtoReader ProtoProps.
+From V Require ProtoRoundTrip.
 Import ListNotations.
-Theorem C02_header_layout : forall c, fst (save c) = PyFacts.py_magic ++ [0; 0; PyFacts.py_protobuf_version]%Z.
+Local Open Scope string_scope.
+Local Open Scope list_scope.
+Local Open Scope Z_scope.
+
+(* ---------- writer ---------- *)
+Theorem C02_header_layout : forall c, fst (save c) = py_magic ++ [0; 0; py_protobuf_version].
 Proof. reflexivity. Qed.
+
+Theorem C02_header_is_GTIRB : py_magic = [71; 84; 73; 82; 66] /\ length (py_magic ++ [0; 0; py_protobuf_version]) = 8%nat.
+Proof. vm_compute. split; reflexivity. Qed.
+
+Theorem C02_writer_uuid_16_bytes : forall u, length (bytes_of_uuid u) = 16%nat /\ forallb is_byte (bytes_of_uuid u) = true.
+Proof. exact writer_uuid_16. Qed.
+
+Theorem C02_writer_ir : forall c,
+  i_uuid (to_proto c) = bytes_of_uuid (cr_uuid c)
+  /\ i_modules (to_proto c) = map module_to_proto (cr_modules c)
+  /\ i_aux (to_proto c) = cr_aux c
+  /\ i_version (to_proto c) = cr_version c
+  /\ i_vertices (to_proto c) = map bytes_of_uuid (flat_map module_cfg_nodes (cr_modules c))
+  /\ i_edges (to_proto c) = map edge_to_proto (cr_edges c).
+Proof. exact writer_ir_fields. Qed.
+
+(* the vertex list names every code block and every proxy block of every module, and nothing else *)
+Theorem C02_writer_vertices : forall c bs,
+  In bs (i_vertices (to_proto c)) <->
+  exists u, bs = bytes_of_uuid u /\ (In u (flat_map code_uuids (cr_modules c)) \/ In u (flat_map cm_proxies (cr_modules c))).
+Proof. exact writer_vertices_complete. Qed.
+
+Theorem C02_writer_module : forall m,
+  m_uuid (module_to_proto m) = bytes_of_uuid (cm_uuid m)
+  /\ m_binary_path (module_to_proto m) = cm_binary_path m
+  /\ m_preferred_addr (module_to_proto m) = cm_preferred_addr m
+  /\ m_rebase_delta (module_to_proto m) = cm_rebase_delta m
+  /\ m_file_format (module_to_proto m) = cm_file_format m
+  /\ m_isa (module_to_proto m) = cm_isa m
+  /\ m_name (module_to_proto m) = cm_name m
+  /\ m_symbols (module_to_proto m) = map symbol_to_proto (cm_symbols m)
+  /\ m_proxies (module_to_proto m) = map bytes_of_uuid (cm_proxies m)
+  /\ m_sections (module_to_proto m) = map section_to_proto (cm_sections m)
+  /\ m_aux (module_to_proto m) = cm_aux m
+  /\ (m_entry (module_to_proto m) = [] <-> cm_entry m = None)
+  /\ (forall e, cm_entry m = Some e -> m_entry (module_to_proto m) = bytes_of_uuid e)
+  /\ m_byte_order (module_to_proto m) = cm_byte_order m.
+Proof. exact writer_module_fields. Qed.
+
+Theorem C02_writer_section : forall s,
+  s_uuid (section_to_proto s) = bytes_of_uuid (cs_uuid s)
+  /\ s_name (section_to_proto s) = cs_name s
+  /\ s_bis (section_to_proto s) = map bi_to_proto (cs_bis s)
+  /\ s_flags (section_to_proto s) = cs_flags s.
+Proof. exact writer_section_fields. Qed.
+
+(* address presence: the flag is set iff there is an address; None and Some 0 differ only in the flag *)
+Theorem C02_writer_byte_interval : forall b,
+  bi_uuid (bi_to_proto b) = bytes_of_uuid (ci_uuid b)
+  /\ bi_blocks (bi_to_proto b) = map block_to_proto (ci_blocks b)
+  /\ bi_symx (bi_to_proto b) = map (fun kv => (fst kv, expr_to_proto (snd kv))) (ci_symx b)
+  /\ (bi_has_addr (bi_to_proto b) = true <-> ci_addr b <> None)
+  /\ (forall a, ci_addr b = Some a -> bi_addr (bi_to_proto b) = a)
+  /\ (ci_addr b = None -> bi_addr (bi_to_proto b) = 0)
+  /\ bi_size (bi_to_proto b) = ci_size b
+  /\ bi_contents (bi_to_proto b) = ci_contents b.
+Proof. exact writer_bi_fields. Qed.
+
+Theorem C02_writer_address_none_vs_zero : forall b b', ci_addr b = None -> ci_addr b' = Some 0 ->
+  bi_has_addr (bi_to_proto b) = false /\ bi_has_addr (bi_to_proto b') = true
+  /\ bi_addr (bi_to_proto b) = bi_addr (bi_to_proto b').
+Proof. exact writer_bi_addr_none_vs_zero. Qed.
+
+(* the one-of of Block is always set, to the alternative of the block's kind *)
+Theorem C02_writer_block : forall b,
+  b_off (block_to_proto b) = cb_off b
+  /\ (cb_code b = true -> b_val (block_to_proto b) = PCode (bytes_of_uuid (cb_uuid b)) (cb_size b) (cb_dm b))
+  /\ (cb_code b = false -> b_val (block_to_proto b) = PData (bytes_of_uuid (cb_uuid b)) (cb_size b))
+  /\ b_val (block_to_proto b) <> PNoBlock.
+Proof. exact writer_block_fields. Qed.
+
+(* payload one-of of Symbol: unset iff no payload; value v (also 0) iff the symbol has that value; referent otherwise *)
+Theorem C02_writer_symbol : forall y,
+  y_uuid (symbol_to_proto y) = bytes_of_uuid (cy_uuid y)
+  /\ y_name (symbol_to_proto y) = cy_name y
+  /\ y_at_end (symbol_to_proto y) = cy_at_end y
+  /\ (y_payload (symbol_to_proto y) = PPNone <-> cy_payload y = CPNone)
+  /\ (forall v, y_payload (symbol_to_proto y) = PPValue v <-> cy_payload y = CPVal v)
+  /\ (forall u, cy_payload y = CPRef u -> y_payload (symbol_to_proto y) = PPRef (bytes_of_uuid u))
+  /\ (forall bs, y_payload (symbol_to_proto y) = PPRef bs -> exists u, cy_payload y = CPRef u /\ bs = bytes_of_uuid u).
+Proof. exact writer_symbol_fields. Qed.
+
+(* attribute flags are written as they are (known and unknown numbers alike) *)
+Theorem C02_writer_expression : forall x,
+  x_attrs (expr_to_proto x) = cx_attrs x
+  /\ (forall off s, cx_val x = CAddrConst off s -> x_val (expr_to_proto x) = PAddrConst off (bytes_of_uuid s))
+  /\ (forall sc off s1 s2, cx_val x = CAddrAddr sc off s1 s2 ->
+        x_val (expr_to_proto x) = PAddrAddr sc off (bytes_of_uuid s1) (bytes_of_uuid s2))
+  /\ x_val (expr_to_proto x) <> PNoExpr.
+Proof. exact writer_expr_fields. Qed.
+
+(* label present iff the edge has one *)
+Theorem C02_writer_edge : forall e,
+  e_src (edge_to_proto e) = bytes_of_uuid (ce_src e)
+  /\ e_dst (edge_to_proto e) = bytes_of_uuid (ce_dst e)
+  /\ (e_label (edge_to_proto e) = None <-> ce_label e = None)
+  /\ (forall t c d, ce_label e = Some (t, c, d) ->
+        e_label (edge_to_proto e) = Some {| l_cond := c; l_direct := d; l_type := t |}).
+Proof. exact writer_edge_fields. Qed.
+
+(* ---------- reader ---------- *)
+(* every attribute of the returned content equals the message field (read back through the writer characterised above) *)
+Theorem C02_reader_fields : forall p c, msg_ok p = true -> from_proto p = Ok c -> to_proto c = msg_norm p.
+Proof. exact reader_fields. Qed.
+
+Theorem C02_accept_coherent : forall p c, msg_ok p = true -> from_proto p = Ok c -> wf c = true.
+Proof. exact accept_coherent. Qed.
+
+(* ---------- finite tables over the generated files ---------- *)
+(* the seven enums of the schema, both inclusions *)
+Theorem C02_enum_total : forall nm, In nm (map fst schema_enums) ->
+  In nm ["EdgeType"; "DecodeMode"; "FileFormat"; "ISA"; "ByteOrder"; "SectionFlag"; "SymAttribute"]
+  /\ schema_members nm <> []
+  /\ (forall sn v, In (sn, v) (schema_members nm) -> enum_ok nm v = true)
+  /\ (forall pn v, In (pn, v) (enum_members nm) -> exists sn, In (sn, v) (schema_members nm)).
+Proof. exact enum_total. Qed.
+
+Theorem C02_enum_names : map fst schema_enums = ["EdgeType"; "DecodeMode"; "FileFormat"; "ISA"; "ByteOrder"; "SectionFlag"; "SymAttribute"].
+Proof. exact (proj1 enum_tables_agree). Qed.
+
+(* every enum constant the schema defines passes the reader's check *)
+Theorem C02_schema_enum_accepted : forall nm sn v, In nm (map fst schema_enums) -> In (sn, v) (schema_members nm) ->
+  check_enum nm v = Ok tt.
+Proof. exact schema_enum_accepted. Qed.
+
+Theorem C02_version_agrees : schema_protobuf_version = py_protobuf_version.
+Proof. exact (proj1 version_agrees). Qed.
+
+(* every field of the sixteen messages is one the model has (ProtoProps.modelled_fields says where); one-of groups too *)
+Theorem C02_fields_covered : flat_map schema_fields modelled_messages = modelled_fields.
+Proof. exact fields_covered. Qed.
+
+Theorem C02_oneofs_covered : flat_map schema_oneofs modelled_messages = modelled_oneofs.
+Proof. exact oneofs_covered. Qed.
+
+(* the schema's remaining messages (Offset, SymStackConst) are not the type of any field *)
+Theorem C02_messages_partition :
+  filter (fun nm => negb (existsb (String.eqb nm) modelled_messages)) (map fst schema_messages) = ["Offset"; "SymStackConst"]
+  /\ forallb (fun nm => existsb (String.eqb nm) (map fst schema_messages)) modelled_messages = true
+  /\ forallb (fun p => forallb (fun f => negb (String.eqb (snd (fst (fst f))) "SymStackConst")
+                                         && negb (String.eqb (snd (fst (fst f))) "Offset")) (snd p)) schema_messages = true.
+Proof. exact messages_partition. Qed.
+
+(* non-vacuity.  Writer: the example content's message has the presence flags and one-ofs as stated.  Reader: a message
+   NOT produced by the writer (repeated flags, attributes and edges, a stale address under has_address = false, an empty
+   vertex list) is accepted and read field by field. *)
+Example C02_example_writer :
+  let p := to_proto ProtoRoundTrip.ex_ir in
+  map (fun m => m_entry m) (i_modules p) = [bytes_of_uuid 10; []]
+  /\ length (i_vertices p) = 3%nat
+  /\ map e_label (i_edges p) = [None; Some {| l_cond := false; l_direct := false; l_type := 0 |};
+                                Some {| l_cond := true; l_direct := true; l_type := 3 |}].
+Proof. vm_compute. repeat split; reflexivity. Qed.
+
+Example C02_example_reader :
+  msg_ok ex_msg = true /\ (exists c, from_proto ex_msg = Ok c /\ to_proto c = msg_norm ex_msg) /\ msg_norm ex_msg <> ex_msg.
+Proof.
+  destruct ex_msg_accepted as [H1 [[c [H2 _]] H3]]. split; [exact H1|]. split; [|exact H3].
+  exists c. split; [exact H2|]. exact (reader_fields ex_msg c H1 H2).
+Qed.
+
 Print Assumptions C02_header_layout.
+Print Assumptions C02_header_is_GTIRB.
+Print Assumptions C02_writer_uuid_16_bytes.
+Print Assumptions C02_writer_ir.
+Print Assumptions C02_writer_vertices.
+Print Assumptions C02_writer_module.
+Print Assumptions C02_writer_section.
+Print Assumptions C02_writer_byte_interval.
+Print Assumptions C02_writer_address_none_vs_zero.
+Print Assumptions C02_writer_block.
+Print Assumptions C02_writer_symbol.
+Print Assumptions C02_writer_expression.
+Print Assumptions C02_writer_edge.
+Print Assumptions C02_reader_fields.
+Print Assumptions C02_accept_coherent.
+Print Assumptions C02_enum_total.
+Print Assumptions C02_enum_names.
+Print Assumptions C02_schema_enum_accepted.
+Print Assumptions C02_version_agrees.
+Print Assumptions C02_fields_covered.
+Print Assumptions C02_oneofs_covered.
+Print Assumptions C02_messages_partition.
